@@ -727,7 +727,16 @@ func TestVerif_C36(t *testing.T) {
 	}
 	defer os.RemoveAll(base)
 	d := &v36Driver{t: t, res: res, base: base, exe: exe}
-	probe, err := Create(context.Background(), Config{Path: filepath.Join(base, "probe"), Connections: 2}, nil)
+	// probe repository: only the listed top-level directories (sub-directories are made on demand)
+	probe, err := open(Config{Path: filepath.Join(base, "probe"), Connections: 2})
+	if err == nil {
+		for _, ty := range v36Types {
+			dir, _ := probe.Basedir(v36FileType(ty))
+			if e := os.MkdirAll(dir, 0o700); e != nil {
+				err = e
+			}
+		}
+	}
 	if err != nil {
 		res.Problem("probe repository: %v", err)
 		return
@@ -737,6 +746,7 @@ func TestVerif_C36(t *testing.T) {
 	rng := kit.Rand(36)
 	all := v36AllScens(rng, kit.Thorough())
 	rng.Shuffle(len(all), func(i, j int) { all[i], all[j] = all[j], all[i] })
+	res.Count("scenario_table_size", len(all))
 	if !kit.Thorough() {
 		// quick tier: a seeded, stratified sample of the table
 		quota := map[string]int{"plain": 13, "pre": 5, "nodir": 4, "short-1": 3, "short": 4, "errmid": 4, "long+1": 4, "long": 3}
@@ -752,7 +762,6 @@ func TestVerif_C36(t *testing.T) {
 	}
 	// config scenarios share one name: at most one per batch
 	nScen := len(all)
-	res.Count("scenario_table_size", len(all))
 	const perBatch = 4
 	var batches [][]v36Scen
 	var cur []v36Scen
@@ -795,7 +804,7 @@ func TestVerif_C36(t *testing.T) {
 	}
 
 	nInject, nKill := 2, 2
-	workers := kit.Pick(6, 8)
+	workers := 8
 	var wg sync.WaitGroup
 	ch := make(chan int)
 	for w := 0; w < workers; w++ {
